@@ -1,6 +1,6 @@
 import extract
 import callgraph
-from rules import c01, c01i, c01p, c01s, recursion, bufbudget, common
+from rules import c01, c01i, c01p, c01s, c01t, recursion, bufbudget, common
 
 # entry points whose recursion is driven by user-shaped data (reader, writer, equal?, eval, strip)
 C01_RECURSION_ROOTS = ["sexp_read_op", "sexp_write_op", "sexp_equalp_op", "sexp_eval_op", "sexp_analyze",
@@ -34,6 +34,7 @@ def run(res, tier, replay=None):
     c01p.run_q(prog, res)
     c01p.run_r(prog, res)
     c01s.run(prog, res, floor=20)
+    c01t.run(prog, res)
     if tier == "thorough":
         flt = c01.scope_filter()
         common.thorough_mutations(res, "C01", {
@@ -56,6 +57,7 @@ def run(res, tier, replay=None):
             "C01.q": lambda p, r: c01p.run_q(p, r),
             "C01.r": lambda p, r: c01p.run_r(p, r, floor=0),
             "C01.s": lambda p, r: c01s.run(p, r, floor=0),
+            "C01.t": lambda p, r: c01t.run(p, r, floor=0),
         })
     if tier == "thorough":
         # after the mutation witnesses: findings of other configurations must not count as their baseline
@@ -90,5 +92,9 @@ def run(res, tier, replay=None):
         "context's type table that carry the unboxed value of a parameter are dominated by 0 <= id < number of types. "
         "(s) a value that sexp_complex_normalize may have turned into a real (the result of a complex helper or of the generic "
         "operations, or a freshly made flonum / ratio) is not passed to a parameter that is read as a complex number without a test. "
+        "(t) an application that keeps an opcode object as its head is built only on paths that bound the operand count by "
+        "num_args+1 or establish a class whose arm in generate_opcode_app loops over the operands (read from that switch): "
+        "the instruction of every other opcode pops a fixed number of values, surplus operands stay on the VM stack behind the "
+        "depth bookkeeping and pushes run past the ensured stack size. "
         "Not decided: pointer-walking loops, memcpy lengths, the signal-handler table, "
         "the reader's label table (value invariant), reader token buffers beyond C01.h, stack growth sufficiency, OOM paths.")
